@@ -128,8 +128,13 @@ static size_t evil_build(Conn *c, int dir, int idx, int variant, const uint8_t *
 	payload_fill(dir, 0, data, dl);
 	rng_bytes(&r, iv, 16);
 	if (variant % 3 == 2) {
-		/* the whole plaintext is padding: no room for data or MAC */
-		memset(pt, 47, 48); n = 48;
+		/* padding that leaves no (or exactly no) room for data and MAC: sweep the boundary
+		 * padding_len in { n-34 .. n-30, n-1 } for n = 48, 64, 80 bytes of plaintext */
+		static const int off[] = { 34, 33, 32, 31, 30, 1 };
+		n = (size_t[]){ 48, 64, 80 }[(variant / 3) % 3];
+		int pl = (int)n - off[(variant / 9 + idx) % 6];
+		rng_bytes(&r, pt, n);
+		memset(pt + n - (size_t)pl - 1, pl, (size_t)pl + 1);
 	} else {
 		SM3_HMAC_CTX h = *mac_ctx;
 		hdr[3] = 0; hdr[4] = (uint8_t)dl;
@@ -495,7 +500,7 @@ static void gen_fault_data(Fault *f, Rng *g, const HonestOut *o, int proto)
 	Cand *t = &c[rng_below(g, (uint32_t)n)];
 	f->kind = kind; f->dir = t->dir; f->rec = t->rec;
 	size_t len = t->len;
-	if (kind == F_EVIL) f->a = rng_below(g, 12);
+	if (kind == F_EVIL) f->a = rng_below(g, 54);
 	switch (kind) {
 	case F_FLIP: {
 		/* stratified over regions of the protected record */
@@ -579,7 +584,7 @@ static const char *region_data(const Fault *f, size_t reclen, int proto)
 {
 	if (f->kind == F_EVIL) {
 		if (proto == P_TLS13) return (const char *[]){ "inner_all_zero", "inner_all_zero_padded", "inner_type_unknown", "inner_all_zero_16384" }[f->a % 4];
-		return (const char *[]){ "padlen_exceeds_record", "padding_inconsistent", "all_padding" }[f->a % 3];
+		return (const char *[]){ "padlen_exceeds_record", "padding_inconsistent", "padding_leaves_no_room" }[f->a % 3];
 	}
 	if (f->kind != F_FLIP) return "-";
 	if (f->off == 0) return "hdr_type";
